@@ -59,6 +59,7 @@ def cases(tier):
     for i in range(0, len(seeds), 4):
         yield {"k": "seeds", "seeds": seeds[i:i + 4]}
     yield {"k": "fresh-cli"}
+    yield {"k": "locale"}
 
 
 def explorer(mode, arg=None, seed="0"):
@@ -163,6 +164,42 @@ def check(case, r, tier):
                 if a != b:
                     r.violation("hash-seed-dependent:%s" % nm[i], "event %s gives a different result under PYTHONHASHSEED=%s than under 0" % (nm[i], s),
                                 {"k": "seeds", "seeds": [s]}, {kk: v for kk, v in a.items() if kk != "stdout"}, {kk: v for kk, v in b.items() if kk != "stdout"})
+        return
+    if k == "locale":
+        # the process locale is not an input: sources are UTF-8 and the result is the same under a UTF-8 locale and under LC_ALL=C
+        progs = [
+            ("include-cyrillic", ["main.mac", "-o", "o.bin", "--charset", "koi8-r"], {"main.mac": "\tnop\n\t.include \"inc.mac\"\n", "inc.mac": "; \u043a\u043e\u043c\u043c\u0435\u043d\u0442\u0430\u0440\u0438\u0439\n\t.ascii \"\u044f\"\n\t.even\n"}),
+            ("include-cyrillic-error", ["main.mac", "-o", "o.bin", "--report-format", "bare"], {"main.mac": "\tnop\n\t.include \"inc.mac\"\n", "inc.mac": "; \u0449\u0438\n\t.ascii \"\u0449\u0438\"\t; \u0449\n\t.word undef1\n"}),
+            ("main-cyrillic", ["main.mac", "-o", "o.bin", "--charset", "koi8-r", "--lst"], {"main.mac": "lab:\t.ascii \"\u044f\"\t; \u044f\n\t.even\n"}),
+            ("listing-cyrillic-path", ["\u0438\u0433\u0440\u0430/prog.mac", "-o", "out.bin", "--lst"], {"\u0438\u0433\u0440\u0430/prog.mac": "start:\tnop\nk = 5\n"}),
+            ("ascii-control", ["main.mac", "-o", "o.bin", "--lst"], {"main.mac": "start:\tnop\n"}),
+        ]
+        envs = {"utf8": {"LC_ALL": "C.UTF-8", "LANG": "C.UTF-8", "PYTHONUTF8": "0", "PYTHONCOERCECLOCALE": "0", "PYTHONIOENCODING": ""},
+                "c": {"LC_ALL": "C", "LANG": "C", "PYTHONUTF8": "0", "PYTHONCOERCECLOCALE": "0", "PYTHONIOENCODING": ""},
+                "latin1": {"LC_ALL": "C", "LANG": "C", "PYTHONUTF8": "0", "PYTHONCOERCECLOCALE": "0", "PYTHONIOENCODING": "latin-1"}}
+        for name, argv, tree in progs:
+            res = {}
+            for en, env in envs.items():
+                root2 = tempfile.mkdtemp(prefix="pdpmc-loc-", dir=os.environ.get("PDPMC_SCRATCH_ROOT"))
+                try:
+                    driver.write_tree(root2, tree)
+                    before = driver.snapshot(root2)
+                    rc, so, se = driver.fresh_process(argv, root2, env={k2: v for k2, v in env.items() if v != ""})
+                    after = driver.snapshot(root2)
+                    files = {}
+                    for pth in after:
+                        if pth not in before or after[pth] != before[pth]:
+                            files[pth] = driver.read_file(root2, pth).replace(root2.encode(), b"<root>")
+                    internal = "unexpected internal compiler error" in se
+                    res[en] = (rc, files, internal)
+                    r.ran("locale-%s-exit-%s" % (en, rc), key=("locale", name, en))
+                    if internal:
+                        r.violation("locale:internal-error:%s" % name, "internal compiler error under locale setting %s" % en, {"k": "locale"}, None, se[-400:])
+                finally:
+                    shutil.rmtree(root2, ignore_errors=True)
+            if len(set(repr(v[:2]) for v in res.values())) > 1:
+                r.violation("locale-dependent:%s" % name, "exit status or files written differ between a UTF-8 locale and LC_ALL=C", {"k": "locale"},
+                            repr(res["utf8"][:2])[:300], repr({k2: v[:2] for k2, v in res.items() if k2 != "utf8"})[:300])
         return
     if k == "fresh-cli":
         # the in-process command-line driver against real processes (python -m pdpy11), for every command-line event
